@@ -102,12 +102,12 @@ def writeAsReader {α} (enc : α → Option Bytes) (xs : List α) : Bytes × Opt
     else (s.out ++ [bRBr], none)                          -- :130-137
 
 /-- The JSON array text of already encoded elements: "[" e1 "," e2 … "]". -/
-def intercalate (sep : Bytes) : List Bytes → Bytes
+def joinBytes (sep : Bytes) : List Bytes → Bytes
   | [] => []
   | [e] => e
-  | e :: es => e ++ sep ++ intercalate sep es
+  | e :: es => e ++ sep ++ joinBytes sep es
 
-def frame (es : List Bytes) : Bytes := [bLBr] ++ intercalate [bComma] es ++ [bRBr]
+def frame (es : List Bytes) : Bytes := [bLBr] ++ joinBytes [bComma] es ++ [bRBr]
 
 /-! ## Readers -/
 
@@ -290,8 +290,11 @@ inductive Fetcher (α : Type) where
   | gives (v : Option α)
   deriving Repr
 
+/-- `emptySup` = the field `emptyValueErrSupplier` is not nil (every constructor of the package sets it; the
+zero value of `Lazy` and a `Lazy` filled only by `UnmarshalJSON` do not). -/
 structure Lazy (α : Type) where
   fetcher : Fetcher α
+  emptySup : Bool
   deriving Repr
 
 inductive LOut (β : Type) where
@@ -301,13 +304,20 @@ inductive LOut (β : Type) where
   | panic        -- nil func call
   deriving Repr, DecidableEq
 
-/-- `Lazy.Get` (shpan_lazy.go:103-112). -/
+/-- `Lazy.Get` (shpan_lazy.go:103-112): an empty value calls `emptyValueErrSupplier()`. -/
 def Lazy.get {α} (l : Lazy α) : LOut α :=
   match l.fetcher with
   | .nilFn => .panic
   | .fails => .err
-  | .gives none => .emptyErr
+  | .gives none => if l.emptySup then .emptyErr else .panic
   | .gives (some v) => .ok v
+
+/-- `Lazy.GetOptional` (:115-117). -/
+def Lazy.getOptional {α} (l : Lazy α) : LOut (Option α) :=
+  match l.fetcher with
+  | .nilFn => .panic
+  | .fails => .err
+  | .gives o => .ok o
 
 /-- `Lazy.MarshalJSON` (:280-286): `json.Marshal(data)` of the fetched `*T` — nil pointer → "null". -/
 def Lazy.marshal {α} (enc : α → Option Bytes) (l : Lazy α) : LOut Bytes :=
@@ -317,9 +327,11 @@ def Lazy.marshal {α} (enc : α → Option Bytes) (l : Lazy α) : LOut Bytes :=
   | .gives none => .ok nullLit
   | .gives (some v) => match enc v with | some b => .ok b | none => .err
 
-/-- `(*Lazy).UnmarshalJSON` (:288-305), pointer receiver: the receiver's `fetcher` is replaced.  Returns the
-receiver after the call and whether an error was returned (on error the receiver is unchanged). -/
+/-- `(*Lazy).UnmarshalJSON` (:288-311), pointer receiver: first a nil `emptyValueErrSupplier` is replaced by the
+default one, then the receiver's `fetcher` is replaced.  Returns the receiver after the call and whether it
+succeeded (on a decoding error the fetcher is unchanged). -/
 def Lazy.unmarshal {α} (dec : Bytes → Option α) (recv : Lazy α) (data : Bytes) : Lazy α × Bool :=
+  let recv := { recv with emptySup := true }
   if data = nullLit then ({ recv with fetcher := .gives none }, true)
   else match dec data with
     | none => (recv, false)
